@@ -262,3 +262,41 @@ func UpgradeTx(signer Acct, contract common.Address, nonce uint64, code []byte) 
 	}
 	return tx
 }
+
+// MultiSignTx builds a MultiSignAccountTx that installs signers as the multi-signer set for contract upgrades, signed by the
+// given validator keys (VerifySign wants more than 2/3 of the voting power of the application's last-changed validators).
+func MultiSignTx(nonce uint64, minPower int32, signers []Acct, powers []int32, valKeys []crypto.PrivKeyEd25519) *types.MultiSignAccountTx {
+	info := types.MultiSignMainInfo{AccountNonce: nonce, SupportTxType: types.TxContractCreateType}
+	info.MinSignerPower = minPower
+	for i, a := range signers {
+		info.Signers = append(info.Signers, &types.SignerEntry{Power: powers[i], Addr: a.Addr})
+	}
+	bz, err := types.GenMultiSignBytes(info)
+	if err != nil {
+		panic(err)
+	}
+	var sigs []types.ValidatorSign
+	for _, k := range valKeys {
+		sig, err := k.Sign(bz)
+		if err != nil {
+			panic(err)
+		}
+		sigs = append(sigs, types.ValidatorSign{Addr: k.PubKey().Address(), Signature: sig.Bytes()})
+	}
+	return types.NewMultiSignAccountTx(&info, sigs)
+}
+
+// UpgradeTxBy builds a contract upgrade with FromAddr = from, signed by the given keys in that order.
+func UpgradeTxBy(from common.Address, contract common.Address, nonce uint64, code []byte, signers []Acct) *types.ContractUpgradeTx {
+	info := &types.ContractUpgradeMainInfo{FromAddr: from, Recipient: contract, AccountNonce: nonce, Payload: code}
+	tx := types.UpgradeContractTx(info, nil)
+	if tx == nil {
+		panic("UpgradeContractTx")
+	}
+	for _, a := range signers {
+		if err := tx.Sign(types.GlobalSTDSigner, a.Key); err != nil {
+			panic(err)
+		}
+	}
+	return tx
+}
